@@ -252,10 +252,12 @@ Proof.
 Qed.
 
 Lemma examine_frame : forall m d s,
-  halted (examine m d s) = halted s /\ unread_marker (examine m d s) = unread_marker s.
+  halted (examine m d s) = halted s /\ unread_marker (examine m d s) = unread_marker s /\
+  marker_list (examine m d s) = marker_list s /\ cur_marker (examine m d s) = cur_marker s /\
+  saw_SOI (examine m d s) = saw_SOI s.
 Proof.
   intros. unfold examine, examine_app0, examine_app14.
-  repeat match goal with |- context[if ?b then _ else _] => destruct b end; destruct s; split; reflexivity.
+  repeat match goal with |- context[if ?b then _ else _] => destruct b end; destruct s; repeat split; reflexivity.
 Qed.
 
 Lemma save_copy_done_state : forall s cm br p n0 s' n k, save_copy s cm br p n0 = Done s' n k ->
@@ -281,10 +283,23 @@ Proof.
     destruct (b1 * 256 + b2 - 2 >=? 0)%Z eqn:L.
     + destruct (save_copy_done _ _ _ _ _ _ _ _ H) as [A B].
       destruct (save_copy_done_state _ _ _ _ _ _ _ _ H) as [U V].
-      repeat split; auto; [simpl; lia|]. intros e. rewrite L. apply B.
+      repeat split; auto; try (simpl; lia). intros e. rewrite L. apply B.
     + inversion H; subst. split; [simpl; lia|]. split; [reflexivity|]. split; [|intros e; now rewrite L].
       simpl. now rewrite (proj1 (examine_frame _ _ _)).
 Qed.
+
+Definition cm0 (s : mstate) (b1 b2 : Z) : saved :=
+  {| sv_marker := unread_marker s; sv_orig := Z.to_nat (b1 * 256 + b2 - 2);
+     sv_dlen := Nat.min (nth (proc_index (unread_marker s)) (limit s) 0) (Z.to_nat (b1 * 256 + b2 - 2));
+     sv_data := [] |}.
+
+Lemma save_marker_fresh : forall s b1 b2 q, cur_marker s = None -> (b1 * 256 + b2 - 2 >=? 0)%Z = true ->
+  save_marker s (b1 :: b2 :: q) = save_copy s (cm0 s b1 b2) 0 q 2.
+Proof. intros. unfold save_marker. rewrite H. simpl. rewrite H0. reflexivity. Qed.
+
+Lemma save_marker_resume : forall s cm q, cur_marker s = Some cm ->
+  save_marker s q = save_copy s cm (bytes_read s) q 0.
+Proof. intros. unfold save_marker. now rewrite H. Qed.
 
 Lemma save_marker_more : forall s p s1 n, save_marker s p = More s1 n ->
   n <= length p /\
@@ -292,22 +307,31 @@ Lemma save_marker_more : forall s p s1 n, save_marker s p = More s1 n ->
    saw_SOF s1 = saw_SOF s /\ proc s1 = proc s /\ cells s1 = cells s) /\
   forall e, save_marker s (p ++ e) = shift n (save_marker s1 (skipn n p ++ e)).
 Proof.
-  unfold save_marker. intros s p s1 n H.
+  intros s p s1 n H.
   destruct (cur_marker s) as [cm|] eqn:C.
-  - destruct (save_copy_more _ _ _ _ _ _ _ H) as (A & B & D). subst. simpl.
+  - rewrite (save_marker_resume _ _ _ C) in H.
+    destruct (save_copy_more _ _ _ _ _ _ _ H) as (A & B & D). subst. simpl.
     split; [lia|]. split; [destruct s; repeat split|].
-    intros e. rewrite skipn_all, C. simpl. now apply save_copy_split.
+    intros e. rewrite skipn_all. simpl.
+    rewrite (save_marker_resume _ _ _ C).
+    rewrite (save_marker_resume (set_cur (Some (cm_app cm p)) (bytes_read s + length p) s) _ e eq_refl).
+    now apply save_copy_split.
   - destruct p as [|b1 [|b2 p]].
-    + inversion H; subst. simpl. split; [lia|]. split; [repeat split|].
-      intros e. rewrite C. now rewrite shift_0.
-    + inversion H; subst. simpl. split; [lia|]. split; [repeat split|].
-      intros e. rewrite C. now rewrite shift_0.
-    + destruct (b1 * 256 + b2 - 2 >=? 0)%Z eqn:L; [|discriminate].
+    + unfold save_marker in H. rewrite C in H. inversion H; subst. simpl. split; [lia|]. split; [repeat split|].
+      intros e. now rewrite shift_0.
+    + unfold save_marker in H. rewrite C in H. inversion H; subst. simpl. split; [lia|]. split; [repeat split|].
+      intros e. now rewrite shift_0.
+    + destruct (b1 * 256 + b2 - 2 >=? 0)%Z eqn:L.
+      2:{ unfold save_marker in H. rewrite C in H. simpl in H. rewrite L in H. discriminate. }
+      rewrite (save_marker_fresh _ _ _ _ C L) in H.
       destruct (save_copy_more _ _ _ _ _ _ _ H) as (A & B & D). subst.
       split; [simpl; lia|]. split; [destruct s; repeat split|].
-      intros e. change ((b1 :: b2 :: p) ++ e) with (b1 :: b2 :: (p ++ e)). rewrite L.
+      intros e. change ((b1 :: b2 :: p) ++ e) with (b1 :: b2 :: (p ++ e)).
+      rewrite (save_marker_fresh _ _ _ _ C L).
       change (skipn (2 + length p) (b1 :: b2 :: p)) with (skipn (length p) p).
-      rewrite skipn_all. simpl. now apply save_copy_split.
+      rewrite skipn_all. simpl app.
+      rewrite (save_marker_resume (set_cur (Some (cm_app (cm0 s b1 b2) p)) (0 + length p) s) _ e eq_refl).
+      now apply save_copy_split.
 Qed.
 
 Lemma save_marker_no_halt : forall s p, save_marker s p <> Halt /\ forall x, save_marker s p <> Fail x.
@@ -316,4 +340,139 @@ Proof.
   destruct (cur_marker s); [destruct (Nat.ltb _ _); split; try intros x; discriminate|].
   destruct p as [|b1 [|b2 p]]; try (split; try intros x; discriminate).
   destruct (_ >=? 0)%Z; [destruct (Nat.ltb _ _)|]; split; try intros x; discriminate.
+Qed.
+
+(* ------------------------------------------------------------ the switch *)
+Lemma slack_le1 : forall s, marker_slack s <= 1.
+Proof. intros. unfold marker_slack. destruct (negb _); [lia|]. destruct (_ =? _)%Z; lia. Qed.
+
+Lemma slack_unread0 : forall s, unread_marker s = 0%Z -> marker_slack s = 0.
+Proof. intros. unfold marker_slack. rewrite H. destruct (negb _); reflexivity. Qed.
+
+Lemma select_same : forall s1 s, halted s1 = halted s -> unread_marker s1 = unread_marker s ->
+  saw_SOI s1 = saw_SOI s -> saw_SOF s1 = saw_SOF s -> proc s1 = proc s -> cells s1 = cells s ->
+  select s1 = select s.
+Proof. intros. unfold select. congruence. Qed.
+
+Ltac cascade H :=
+  repeat match type of H with
+  | (if ?b then _ else _) = _ => destruct b eqn:?
+  | (match ?x with _ => _ end) = _ => destruct x eqn:?
+  end.
+
+Ltac slack1 s :=
+  unfold marker_slack;
+  repeat match goal with
+  | H : negb (halted s =? 0)%Z = false |- _ => rewrite H; clear H
+  | H : (unread_marker s =? 0)%Z = false |- _ => rewrite H; clear H
+  end; reflexivity.
+
+Lemma after_marker_slack : forall x, marker_slack (after_marker x) = 0.
+Proof. intros. apply slack_unread0. reflexivity. Qed.
+
+Lemma select_routine : forall s m after, select s = BRoutine m after ->
+  stable m /\
+  ((forall x, marker_slack (after x) = 0) /\ marker_slack s = 1 \/ (m = first_marker /\ after = fun s => s)).
+Proof.
+  intros s m after H. unfold select, select' in H.
+  cascade H; try discriminate; inversion H; subst; clear H;
+    (split;
+     [ first [ apply stable_get_sof | apply stable_get_sos | apply stable_get_dht | apply stable_get_dqt
+             | apply stable_get_dri | apply stable_skip_variable | apply stable_appn | apply stable_first_marker ]
+     | first [ right; split; reflexivity
+             | left; split; [ intros; first [apply after_marker_slack | reflexivity] | slack1 s ] ] ]).
+Qed.
+
+Lemma select_pure : forall s f, select s = BPure f ->
+  marker_slack s = 1 /\ forall s', f s = inl s' -> marker_slack s' = 0.
+Proof.
+  intros s f H. unfold select, select' in H.
+  cascade H; try discriminate; inversion H; subst; clear H; (split; [slack1 s|]); intros s' E.
+  - destruct (get_soi s); inversion E. apply after_marker_slack.
+  - inversion E. reflexivity.
+  - inversion E. apply after_marker_slack.
+Qed.
+
+Lemma select_save : forall s, select s = BSave -> marker_slack s = 1.
+Proof.
+  intros s H. unfold select, select' in H.
+  cascade H; try discriminate; slack1 s.
+Qed.
+
+Lemma select_next : forall s, select s = BNext -> marker_slack s = 0.
+Proof.
+  intros s H. unfold select, select' in H.
+  cascade H; try discriminate.
+  unfold marker_slack.
+  repeat match goal with H : _ = _ |- _ => rewrite H end. reflexivity.
+Qed.
+
+Lemma select_dirty : forall s m after p ws, select s = BRoutine m after -> m p 0 = PMore ws ->
+  select (apply_all ws s) = select s.
+Proof.
+  intros s m after p ws H Hm. unfold select in *.
+  destruct (apply_all_frame ws s) as (F1 & F2 & F3 & _ & _ & _ & _ & _ & _ & _ & _ & _ & F13 & _ & F15).
+  rewrite F1, F2, F3, F13, F15. unfold select' in *.
+  cascade H; try discriminate; try reflexivity.
+  inversion H; subst.
+  pose proof (emits_get_sos (saw_SOF s) (cget G_SC S_NCOMP (cells s)) (nth G_ID (cells s) []) p 0) as Q.
+  rewrite Hm in Q. destruct (q_sos_frame ws s Q) as [Q1 Q2]. now rewrite Q1, Q2.
+Qed.
+
+Lemma routine_more' : forall m after, stable m -> forall s p s1 n, run_routine m after s p = More s1 n ->
+  exists ws, m p 0 = PMore ws /\ s1 = apply_all ws s /\ n = 0.
+Proof.
+  unfold run_routine. intros m after St s p s1 n H.
+  destruct (m p 0) as [[c k0] pos ws|ws|y] eqn:E; try discriminate.
+  inversion H; subst. now exists ws.
+Qed.
+
+Theorem marker_unit_resumable : resumable marker_unit marker_slack.
+Proof.
+  constructor.
+  - (* done_stable *)
+    intros s p s' n k H. unfold marker_unit in *.
+    destruct (select s) as [| |m after|f|x|] eqn:B; simpl in *; try discriminate.
+    + destruct (next_marker_done _ _ _ _ _ H) as (A1 & A2 & A3).
+      pose proof (slack_le1 s'). repeat split; auto; lia.
+    + destruct (select_routine _ _ _ B) as [St Sl].
+      destruct (routine_done m after St _ _ _ _ _ H) as [A1 A2].
+      repeat split; auto.
+      destruct Sl as [[S1 S2]|[S1 S2]].
+      * unfold run_routine in H. destruct (m p 0) as [[c k0] pos ws|ws|y]; inversion H; subst. rewrite S1, S2. lia.
+      * subst. unfold run_routine in H. pose proof (slack_le1 s') as LE.
+        destruct (first_marker p 0) as [[c k0] pos ws|ws|y] eqn:E; inversion H; subst.
+        apply first_marker_two in E. subst. lia.
+    + destruct (select_pure _ _ B) as [S1 S2].
+      destruct (f s) eqn:E; inversion H; subst. rewrite (S2 _ eq_refl), S1. repeat split; auto; lia.
+    + destruct (save_marker_done _ _ _ _ _ H) as (A1 & A2 & A3 & A4).
+      rewrite (slack_unread0 _ A2), (select_save _ B). repeat split; auto; lia.
+  - (* fail_stable *)
+    intros s p x H e. unfold marker_unit in *.
+    destruct (select s) as [| |m after|f|y|] eqn:B; simpl in *; try discriminate; auto.
+    + exfalso. exact (proj1 (next_marker_no_fail s p) x H).
+    + destruct (select_routine _ _ _ B) as [St _]. now apply routine_fail.
+    + exfalso. exact (proj2 (save_marker_no_halt s p) x H).
+  - (* halt_state *)
+    intros s p H q. unfold marker_unit in *.
+    destruct (select s) as [| |m after|f|y|] eqn:B; simpl in *; try discriminate; auto.
+    + exfalso. exact (proj2 (next_marker_no_fail s p) H).
+    + exfalso. exact (routine_never_halt m after s p H).
+    + exfalso. exact (proj1 (save_marker_no_halt s p) H).
+  - (* more_replay *)
+    intros s p s1 n H. unfold marker_unit in *.
+    destruct (select s) as [| |m after|f|y|] eqn:B; simpl in *; try discriminate.
+    + destruct (next_marker_more _ _ _ _ H) as (A1 & [d A2] & A3).
+      split; auto. intros e.
+      assert (S1 : select s1 = select s) by (subst; apply select_same; destruct s; reflexivity).
+      rewrite S1, B. simpl. apply A3.
+    + destruct (select_routine _ _ _ B) as [St _].
+      destruct (routine_more' m after St _ _ _ _ H) as (ws & Hm & -> & ->).
+      destruct (routine_more m after St _ _ _ _ H) as (_ & _ & A3).
+      split; [lia|]. intros e.
+      rewrite (select_dirty _ _ _ _ _ B Hm), B. simpl. rewrite shift_0. symmetry. apply A3.
+    + destruct (f s); discriminate.
+    + destruct (save_marker_more _ _ _ _ H) as (A1 & (F1 & F2 & F3 & F4 & F5 & F6) & A3).
+      split; auto. intros e.
+      rewrite (select_same _ _ F1 F2 F3 F4 F5 F6), B. simpl. apply A3.
 Qed.
